@@ -13,6 +13,10 @@ Theorem C09_runner_count : forall n, work_do_min_n <= n ->
 Proof. exact runner_count. Qed.
 Print Assumptions C09_runner_count.
 
+Theorem C09_add_signals_per_item : work_add_signals_when_waiting = true.
+Proof. exact add_signal_guard. Qed.
+Print Assumptions C09_add_signals_per_item.
+
 Theorem C09_exactly_once : forall (n : nat) (children : nat -> list nat) (inits : list nat),
   work_do_min_n <= n ->
   forall s : state, reachable n children inits s ->
@@ -60,6 +64,19 @@ Theorem C09_no_lost_wakeup : forall (n : nat) (children : nat -> list nat) (init
   (exists (t : nat) (p : pc), nth_error (pcs s) t = Some p /\ (is_top p || is_woken p || is_run p)%bool = true).
 Proof. exact no_lost_wakeup. Qed.
 Print Assumptions C09_no_lost_wakeup.
+
+Theorem C09_wakeup_per_item : forall (n : nat) (children : nat -> list nat) (inits : list nat),
+  work_do_min_n <= n ->
+  forall s : state, reachable n children inits s -> 0 < cnt is_parked (pcs s) ->
+  length (todo s) <= cnt is_top (pcs s) + cnt is_woken (pcs s).
+Proof. exact wakeup_per_item. Qed.
+Print Assumptions C09_wakeup_per_item.
+
+Theorem C09_wakeup_ok_on_reachable_states : forall (n : nat) (children : nat -> list nat) (inits : list nat),
+  work_do_min_n <= n ->
+  forall s : state, reachable n children inits s -> wakeup_ok s = true.
+Proof. exact wakeup_ok_reachable. Qed.
+Print Assumptions C09_wakeup_ok_on_reachable_states.
 
 Theorem C09_stuck_is_final : forall (n : nat) (children : nat -> list nat) (inits : list nat),
   work_do_min_n <= n ->
